@@ -647,6 +647,9 @@ func TestVerif_C26(t *testing.T) {
 		N uint32 `json:"n"`
 	}
 	replay := r.ReplayCase(&rc) && rc.N > 0
+	if r.IsReplay() && !replay {
+		return // the replay case belongs to another unit of C26 (unit reuse)
+	}
 	if replay && rc.N < N {
 		N = rc.N
 	}
